@@ -184,7 +184,7 @@ Theorem remove_file_keeps m f w r w' x :
     Reach w' (m_root x) i /\ forall h, h <> f -> (Attributed w i h <-> Attributed w' i h).
 Proof.
   intros TI FI HK HU HL H Hmx i g Hri Hgf Hag. pose proof TI as (C & NO & _).
-  destruct (remove_file_shape T m f w r w' TI FI HK HU HL H) as [(-> & _)|(x0 & cur & w1 & w3 & td & r3 & Hx0 & Hxin & Hfin & Hn1 & ST1 & Hcur & Hrest & S & TI3 & FI3 & Hdel & Htd)].
+  destruct (remove_file_shape T m f w r w' TI FI HK HU HL H) as [(-> & _)|(x0 & cur & w1 & w3 & td & r3 & Hx0 & Hxin & Hfin & Hn1 & ST1 & Hcur & Hrest & S & TI3 & FI3 & Hdel & Htd & _)].
   { split; auto. intros h _. tauto. }
   assert (x0 = x) by congruence. subst x0. pose proof (FI x Hxin) as FIx.
   pose proof TI3 as (C3 & NO3 & _).
